@@ -298,6 +298,12 @@ def c13(run, replay=None):
                 items.append(("terminal-environment", dict(text=shown, argv=[], rash_args=["-e", "%s=%s" % (var, val)], raw=False)))
     for ra in (["--diff"], ["--check"], ["-vv"], ["--check", "--diff", "-v"]):
         items.append(("default-output", dict(text=shown, argv=[], rash_args=ra, raw=False)))
+    # the TASK header line is padded to the terminal width: names of every length, in 1-, 2-, 3- and 4-byte characters
+    for ch in ("a", "\u00e9", "\u65e5", "\U0001F600", "\u0301"):
+        for n in list(range(0, 100, 3 if run.tier == "quick" else 1)) + [200, 1000]:
+            items.append(("task-name-width", dict(text="#!/usr/bin/env rash\n- name: \"%s\"\n  debug:\n    msg: x\n" % (ch * n), argv=[], raw=False)))
+            if n % 9 == 0:
+                items.append(("task-name-width", dict(text="#!/usr/bin/env rash\n- name: \"%s\"\n  debug:\n    msg: x\n" % (ch * n), argv=[], raw=False, env={"COLUMNS": "40"})))
 
     # standard output that cannot be written to (K40): a full device, a closed pipe - with and without --diff
     for ra in ([], ["--diff"], ["--diff", "--check"], ["-vv"]):
